@@ -1,0 +1,6 @@
+//go:build !verif
+// +build !verif
+
+package websocket
+
+func verifPoint(point string, c *Conn) {}
